@@ -4,6 +4,7 @@ import (
 	"fmt"
 	"sort"
 	"sync"
+	"time"
 
 	"golang.org/x/tools/go/ssa"
 
@@ -15,75 +16,186 @@ import (
 type Decision struct {
 	Val    uint64
 	Forced bool
+	Choice bool // a free choice (scheduler, select case, pool reuse): consumed also in concrete replay
 }
 
 // Violation is a failed assertion with a model.
 type Violation struct {
-	Label  string
-	Model  map[string]uint64
-	Trace  []Decision
-	Kind   string // "assert" | "panic" | "unwind"
-	Detail string
+	Label    string
+	Model    map[string]uint64
+	UFTable  []UFEntry
+	Trace    []Decision
+	Kind     string // "assert" | "panic" | "unwind" | "deadlock"
+	Detail   string
+	Tags     map[string]string
+	Schedule []int
+	Stack    string
+	Reached  []string
 }
 
-type PathResult struct {
-	Outcome string // "ok", "assume", "unsupported", "unwind", "panic", "infeasible"
-	Msg     string
-	Steps   int
+// UFEntry is one application of an uninterpreted function under a model.
+type UFEntry struct {
+	Name string
+	Args []uint64
+	Val  uint64
+}
+
+// Witness is a model reaching a Reach label together with what the path observed up to there.
+type Witness struct {
+	Label   string
+	Model   map[string]uint64
+	UFTable []UFEntry
+	Reached []string          // labels reached on this path up to and including Label
+	Observe map[string]uint64 // rt.Observe values evaluated under the model
+	Choices []uint64
+}
+
+// Query is a final assertion query kept for cross-solver checking.
+type Query struct {
+	Label  string
+	PC     []*term.Term
+	Neg    *term.Term
+	Result string
+}
+
+// Concrete holds the inputs of a concrete (replay) execution.
+type Concrete struct {
+	Model   map[string]uint64
+	UF      []UFEntry
+	Choices []uint64
 }
 
 // Engine holds what is shared by all paths of one harness.
 type Engine struct {
 	Prog       *ssa.Program
 	Intrinsics map[string]Intrinsic
+	Subst      map[string]*ssa.Function // fully-qualified function -> harness replacement
 	MaxLoop    int
 	MaxDepth   int
 	MaxWidth   int // max values when concretising
 	MaxPreempt int
 	Bounds     map[string]int
 	NewSolver  func() (*solver.Solver, error)
+	Workers    int
+	MaxPaths   int
+	Deadline   time.Time
+	Concrete   *Concrete
+	// violations for termination properties
+	UnwindIsViolation   bool
+	DeadlockIsViolation bool
+	PanicOK             bool // unrecovered panics are not violations (harness asserts on them itself)
+	KeepQueries         int  // how many final assertion queries to keep for cross-checking
+	QuerySampleSeed     uint64
 
 	mu         sync.Mutex
 	Violations []Violation
-	Reached    map[string]map[string]uint64 // label -> model
-	Paths      []PathResult
+	Witnesses  map[string]*Witness
+	Outcomes   map[string]int
+	Msgs       map[string][]string // outcome -> a few messages
+	NPaths     int
 	Funcs      map[*ssa.Function]int // functions executed -> instr count
 	Queries    int
+	NSat       int
+	NUnsat     int
+	NUnknown   int
 	SolverTime float64
 	Decisions  int
+	Steps      int64
+	Notes      map[string]bool
+	Asserts    map[string]int // label -> assertion queries discharged
+	Kept       []Query
+	nQ         uint64
+	Exhausted  string // non-empty: exploration was cut (budget/deadline)
+	SchedPts   int
+}
+
+type worklist struct {
+	mu     sync.Mutex
+	cond   *sync.Cond
+	items  [][]Decision
+	active int
+}
+
+func (w *worklist) push(d []Decision) {
+	w.mu.Lock()
+	w.items = append(w.items, d)
+	w.mu.Unlock()
+	w.cond.Signal()
+}
+
+// take returns the next item, or false when the exploration is complete.
+func (w *worklist) take() ([]Decision, bool) {
+	w.mu.Lock()
+	defer w.mu.Unlock()
+	for len(w.items) == 0 {
+		if w.active == 0 {
+			w.cond.Broadcast()
+			return nil, false
+		}
+		w.cond.Wait()
+	}
+	it := w.items[len(w.items)-1]
+	w.items = w.items[:len(w.items)-1]
+	w.active++
+	return it, true
+}
+
+func (w *worklist) finish() {
+	w.mu.Lock()
+	w.active--
+	idle := w.active == 0 && len(w.items) == 0
+	w.mu.Unlock()
+	if idle {
+		w.cond.Broadcast()
+	}
 }
 
 // run is the state of one path execution.
 type run struct {
-	eng    *Engine
-	sol    *solver.Solver
-	trace  []Decision // prefix to follow
-	pos    int
-	taken  []Decision // decisions taken so far (prefix + new)
-	pc     []*term.Term
-	work   *[][]Decision // new alternatives are appended here
-	inputs []*term.Term  // nondet variables created in order
-	names  map[string]int
-	globals map[*ssa.Global]*Value
-	inited  map[*ssa.Package]bool
-	steps  int
-	depth  int
-	incomplete string
-	reach  map[string]bool
-	notes  map[string]bool
+	eng           *Engine
+	sol           *solver.Solver
+	trace         []Decision // prefix to follow
+	pos           int
+	taken         []Decision // decisions taken so far (prefix + new)
+	pc            []*term.Term
+	work          *worklist
+	inputs        []*term.Term // nondet variables created in order
+	ufApps        []*term.Term
+	names         map[string]int
+	globals       map[*ssa.Global]*Value
+	inited        map[*ssa.Package]bool
+	steps         int
+	depth         int
+	incomplete    string
+	reached       []string
+	observed      []obs
+	tags          map[string]string
+	notes         map[string]bool
 	curDeferFrame []*frame
-	runningInit int
-	sch *sched
-	stack []string
-	initOK *ssa.Function
+	runningInit   int
+	sch           *sched
+	stack         []string
+	initOK        *ssa.Function
+	choicePos     int
+	objs          map[string]any // per-path engine object state (clock, pools, ...)
+	nextID        int
 }
+
+type obs struct {
+	name string
+	t    *term.Term
+}
+
+func (r *run) pushAlt(alt []Decision) { r.work.push(alt) }
 
 func (r *run) addPC(c *term.Term) {
 	if c.IsTrue() {
 		return
 	}
 	r.pc = append(r.pc, c)
-	r.sol.Assert(c)
+	if r.sol != nil {
+		r.sol.Assert(c)
+	}
 }
 
 // feasible asks the solver whether pc ∧ c is satisfiable. Unknown counts as feasible.
@@ -93,6 +205,9 @@ func (r *run) feasible(c *term.Term) bool {
 	}
 	if c.IsFalse() {
 		return false
+	}
+	if r.eng.Concrete != nil {
+		panic(pathEnd{kind: "engine-bug", msg: "symbolic condition in concrete replay: " + c.String()})
 	}
 	res, err := r.sol.CheckWith(c)
 	if err != nil || res == solver.Unknown {
@@ -125,7 +240,7 @@ func (r *run) branch(c *term.Term) bool {
 	switch {
 	case ft && ff:
 		alt := append(append([]Decision{}, r.taken...), Decision{Val: 0})
-		*r.work = append(*r.work, alt)
+		r.pushAlt(alt)
 		r.taken = append(r.taken, Decision{Val: 1})
 		r.addPC(c)
 		return true
@@ -151,6 +266,9 @@ func (r *run) concretize(t *term.Term, what string) uint64 {
 		r.addPC(term.Eq(t, term.Const(t.W, d.Val)))
 		return d.Val
 	}
+	if r.eng.Concrete != nil {
+		panic(pathEnd{kind: "engine-bug", msg: "symbolic value in concrete replay: " + what})
+	}
 	// enumerate feasible values
 	var vals []uint64
 	r.sol.Push()
@@ -163,21 +281,17 @@ func (r *run) concretize(t *term.Term, what string) uint64 {
 		if res == solver.Unsat {
 			break
 		}
-		m, err := r.sol.Values([]*term.Term{t})
+		v, err := r.sol.Eval([]*term.Term{t})
 		if err != nil {
 			r.sol.Pop()
 			panic(pathEnd{kind: "unsupported", msg: "get-value failed: " + err.Error()})
 		}
-		var v uint64
-		for _, x := range m {
-			v = x
-		}
-		vals = append(vals, v)
+		vals = append(vals, v[0])
 		if len(vals) > r.eng.MaxWidth {
 			r.sol.Pop()
 			panic(pathEnd{kind: "unsupported", msg: fmt.Sprintf("shape too wide while concretising %s (> %d values)", what, r.eng.MaxWidth)})
 		}
-		r.sol.Assert(term.Not(term.Eq(t, term.Const(t.W, v))))
+		r.sol.Assert(term.Not(term.Eq(t, term.Const(t.W, v[0]))))
 	}
 	r.sol.Pop()
 	if len(vals) == 0 {
@@ -186,7 +300,7 @@ func (r *run) concretize(t *term.Term, what string) uint64 {
 	sort.Slice(vals, func(i, j int) bool { return vals[i] < vals[j] })
 	for _, v := range vals[1:] {
 		alt := append(append([]Decision{}, r.taken...), Decision{Val: v})
-		*r.work = append(*r.work, alt)
+		r.pushAlt(alt)
 	}
 	d := Decision{Val: vals[0], Forced: len(vals) == 1}
 	r.taken = append(r.taken, d)
@@ -201,9 +315,37 @@ func (r *run) fresh(name string, w int) *term.Term {
 	if n > 0 {
 		full = fmt.Sprintf("%s#%d", name, n)
 	}
+	if c := r.eng.Concrete; c != nil {
+		return term.Const(w, c.Model[full])
+	}
 	v := term.Var(full, w)
 	r.inputs = append(r.inputs, v)
 	return v
+}
+
+// uf applies an uninterpreted function (functionally consistent by construction in the solver).
+func (r *run) uf(name string, w int, args ...*term.Term) *term.Term {
+	if c := r.eng.Concrete; c != nil {
+		for _, e := range c.UF {
+			if e.Name != name || len(e.Args) != len(args) {
+				continue
+			}
+			same := true
+			for i, a := range args {
+				if !a.IsConst() || a.Val != e.Args[i] {
+					same = false
+					break
+				}
+			}
+			if same {
+				return term.Const(w, e.Val)
+			}
+		}
+		return term.Const(w, 0)
+	}
+	t := term.UF(name, w, args...)
+	r.ufApps = append(r.ufApps, t)
+	return t
 }
 
 func (r *run) model() map[string]uint64 {
@@ -214,14 +356,75 @@ func (r *run) model() map[string]uint64 {
 	return m
 }
 
+// ufTable evaluates all UF applications made on this path under the current model.
+func (r *run) ufTable() []UFEntry {
+	var out []UFEntry
+	seen := map[*term.Term]bool{}
+	for _, app := range r.ufApps {
+		if seen[app] {
+			continue
+		}
+		seen[app] = true
+		ts := append(append([]*term.Term{}, app.Args...), app)
+		vs, err := r.sol.Eval(ts)
+		if err != nil {
+			continue
+		}
+		out = append(out, UFEntry{Name: app.Name, Args: vs[:len(vs)-1], Val: vs[len(vs)-1]})
+	}
+	return out
+}
+
+func (r *run) choices() []uint64 {
+	var c []uint64
+	for _, d := range r.taken {
+		if d.Choice {
+			c = append(c, d.Val)
+		}
+	}
+	return c
+}
+
+func (r *run) record(v Violation) {
+	v.Trace = append([]Decision{}, r.taken...)
+	v.Tags = map[string]string{}
+	for k, x := range r.tags {
+		v.Tags[k] = x
+	}
+	if r.sch != nil {
+		v.Schedule = append([]int{}, r.sch.schedule...)
+	}
+	v.Reached = append([]string{}, r.reached...)
+	st := ""
+	for i := len(r.stack) - 1; i >= 0 && i >= len(r.stack)-8; i-- {
+		st += " <- " + r.stack[i]
+	}
+	v.Stack = st
+	r.eng.mu.Lock()
+	r.eng.Violations = append(r.eng.Violations, v)
+	r.eng.mu.Unlock()
+}
+
 // check verifies an assertion: returns after recording a violation if ¬c is satisfiable.
 func (r *run) check(c *term.Term, label, kind, detail string) {
+	r.eng.mu.Lock()
+	r.eng.Asserts[label]++
+	r.eng.mu.Unlock()
 	if c.IsTrue() {
 		return
 	}
+	if r.eng.Concrete != nil {
+		if c.IsFalse() {
+			r.record(Violation{Label: label, Kind: kind, Detail: detail, Model: r.eng.Concrete.Model})
+			return
+		}
+		panic(pathEnd{kind: "engine-bug", msg: "symbolic assertion in concrete replay"})
+	}
 	r.sol.Push()
-	r.sol.Assert(term.Not(c))
+	neg := term.Not(c)
+	r.sol.Assert(neg)
 	res, err := r.sol.Check()
+	r.keepQuery(label, neg, res)
 	if err != nil || res == solver.Unknown {
 		r.sol.Pop()
 		r.incomplete = "assertion query unknown: " + label
@@ -229,10 +432,9 @@ func (r *run) check(c *term.Term, label, kind, detail string) {
 	}
 	if res == solver.Sat {
 		m := r.model()
+		uft := r.ufTable()
 		r.sol.Pop()
-		r.eng.mu.Lock()
-		r.eng.Violations = append(r.eng.Violations, Violation{Label: label, Model: m, Trace: append([]Decision{}, r.taken...), Kind: kind, Detail: detail})
-		r.eng.mu.Unlock()
+		r.record(Violation{Label: label, Model: m, UFTable: uft, Kind: kind, Detail: detail})
 	} else {
 		r.sol.Pop()
 	}
@@ -243,36 +445,160 @@ func (r *run) check(c *term.Term, label, kind, detail string) {
 	r.addPC(c)
 }
 
-// Explore runs the harness function over all paths (sequential worker).
-func (e *Engine) Explore(fn *ssa.Function, maxPaths int) error {
-	sol, err := e.NewSolver()
-	if err != nil {
-		return err
+func (r *run) keepQuery(label string, neg *term.Term, res solver.Result) {
+	e := r.eng
+	if e.KeepQueries <= 0 {
+		return
 	}
-	defer sol.Close()
-	work := [][]Decision{{}}
-	if e.Reached == nil {
-		e.Reached = map[string]map[string]uint64{}
+	e.mu.Lock()
+	defer e.mu.Unlock()
+	e.nQ++
+	q := Query{Label: label, PC: append([]*term.Term{}, r.pc...), Neg: neg, Result: res.String()}
+	if len(e.Kept) < e.KeepQueries {
+		e.Kept = append(e.Kept, q)
+		return
+	}
+	// reservoir sampling, deterministic in the seed
+	x := (e.nQ*6364136223846793005 + e.QuerySampleSeed*1442695040888963407) >> 17
+	if j := x % e.nQ; j < uint64(e.KeepQueries) {
+		e.Kept[j] = q
+	}
+}
+
+func (e *Engine) initMaps() {
+	if e.Witnesses == nil {
+		e.Witnesses = map[string]*Witness{}
 	}
 	if e.Funcs == nil {
 		e.Funcs = map[*ssa.Function]int{}
 	}
-	for len(work) > 0 && len(e.Paths) < maxPaths {
-		tr := work[len(work)-1]
-		work = work[:len(work)-1]
-		r := &run{eng: e, sol: sol, trace: tr, work: &work, names: map[string]int{}, globals: map[*ssa.Global]*Value{}, inited: map[*ssa.Package]bool{}, reach: map[string]bool{}}
-		sol.Push()
-		res := r.execute(fn)
-		sol.Pop()
-		e.Paths = append(e.Paths, res)
-		e.Decisions += len(r.taken)
+	if e.Outcomes == nil {
+		e.Outcomes = map[string]int{}
+		e.Msgs = map[string][]string{}
+		e.Notes = map[string]bool{}
+		e.Asserts = map[string]int{}
 	}
-	e.Queries += sol.Queries
-	e.SolverTime += sol.Time.Seconds()
-	if len(work) > 0 {
-		return fmt.Errorf("path budget exhausted: %d paths left", len(work))
+}
+
+func (e *Engine) newRun(sol *solver.Solver, tr []Decision, wl *worklist) *run {
+	return &run{eng: e, sol: sol, trace: tr, work: wl, names: map[string]int{}, globals: map[*ssa.Global]*Value{}, inited: map[*ssa.Package]bool{}, objs: map[string]any{}, tags: map[string]string{}}
+}
+
+func (e *Engine) account(r *run, res PathResult) {
+	e.mu.Lock()
+	defer e.mu.Unlock()
+	e.Outcomes[res.Outcome]++
+	if len(e.Msgs[res.Outcome]) < 6 && res.Msg != "" {
+		dup := false
+		for _, m := range e.Msgs[res.Outcome] {
+			if m == res.Msg {
+				dup = true
+			}
+		}
+		if !dup {
+			e.Msgs[res.Outcome] = append(e.Msgs[res.Outcome], res.Msg)
+		}
+	}
+	e.Decisions += len(r.taken)
+	e.Steps += int64(r.steps)
+	if r.sch != nil {
+		e.SchedPts += len(r.sch.schedule)
+	}
+	for n := range r.notes {
+		e.Notes[n] = true
+	}
+}
+
+// Explore runs the harness function over all paths with e.Workers parallel workers.
+func (e *Engine) Explore(fn *ssa.Function) error {
+	e.initMaps()
+	if e.Concrete != nil {
+		wl := &worklist{}
+		wl.cond = sync.NewCond(&wl.mu)
+		r := e.newRun(nil, nil, wl)
+		res := r.execute(fn)
+		e.NPaths++
+		e.account(r, res)
+		return nil
+	}
+	wl := &worklist{items: [][]Decision{{}}}
+	wl.cond = sync.NewCond(&wl.mu)
+	nw := e.Workers
+	if nw < 1 {
+		nw = 1
+	}
+	var wg sync.WaitGroup
+	errs := make(chan error, nw)
+	for i := 0; i < nw; i++ {
+		wg.Add(1)
+		go func() {
+			defer wg.Done()
+			sol, err := e.NewSolver()
+			if err != nil {
+				errs <- err
+				// keep draining so that others are not stuck is unnecessary: others proceed alone
+				return
+			}
+			defer func() {
+				e.mu.Lock()
+				e.Queries += sol.Queries
+				e.NSat += sol.NSat
+				e.NUnsat += sol.NUnsat
+				e.NUnknown += sol.NUnk
+				e.SolverTime += sol.Time.Seconds()
+				e.mu.Unlock()
+				sol.Close()
+			}()
+			for {
+				tr, ok := wl.take()
+				if !ok {
+					return
+				}
+				e.mu.Lock()
+				cut := ""
+				if e.MaxPaths > 0 && e.NPaths >= e.MaxPaths {
+					cut = fmt.Sprintf("path budget %d exhausted", e.MaxPaths)
+				} else if !e.Deadline.IsZero() && time.Now().After(e.Deadline) {
+					cut = "time budget exhausted"
+				}
+				if cut != "" {
+					e.Exhausted = cut
+					e.mu.Unlock()
+					wl.finish()
+					continue // drain
+				}
+				e.NPaths++
+				e.mu.Unlock()
+				r := e.newRun(sol, tr, wl)
+				sol.Push()
+				res := r.execute(fn)
+				sol.Pop()
+				if sol.Dead() {
+					res = PathResult{Outcome: "inconclusive", Msg: "solver process died"}
+					sol.Close()
+					if ns, err := e.NewSolver(); err == nil {
+						ns.Queries, ns.NSat, ns.NUnsat, ns.NUnk, ns.Time = sol.Queries, sol.NSat, sol.NUnsat, sol.NUnk, sol.Time
+						sol = ns
+					}
+				}
+				e.account(r, res)
+				wl.finish()
+			}
+		}()
+	}
+	wg.Wait()
+	select {
+	case err := <-errs:
+		return err
+	default:
 	}
 	return nil
+}
+
+type PathResult struct {
+	Outcome string // "ok", "assume", "unsupported", "unwind", "panic", "infeasible", "deadlock", "inconclusive"
+	Msg     string
+	Steps   int
 }
 
 func (r *run) execute(fn *ssa.Function) (res PathResult) {
@@ -281,15 +607,26 @@ func (r *run) execute(fn *ssa.Function) (res PathResult) {
 			switch x := x.(type) {
 			case pathEnd:
 				res = PathResult{Outcome: x.kind, Msg: x.msg, Steps: r.steps}
+				if (x.kind == "unwind" && r.eng.UnwindIsViolation) || (x.kind == "deadlock" && r.eng.DeadlockIsViolation) {
+					label := "terminates"
+					if x.kind == "deadlock" {
+						label = "no-deadlock"
+					}
+					r.eng.mu.Lock()
+					r.eng.Asserts[label]++
+					r.eng.mu.Unlock()
+					m, uft := r.model2()
+					r.record(Violation{Label: label, Model: m, UFTable: uft, Kind: x.kind, Detail: x.msg})
+				}
 			case goPanic:
-				// unrecovered panic in program under test: is it feasible? yes (we are on a feasible path)
-				m := r.model2()
-				r.eng.mu.Lock()
-				r.eng.Violations = append(r.eng.Violations, Violation{Label: "panic", Model: m, Trace: append([]Decision{}, r.taken...), Kind: "panic", Detail: x.msg})
-				r.eng.mu.Unlock()
+				// unrecovered panic in the program under test on a feasible path
+				if !r.eng.PanicOK {
+					m, uft := r.model2()
+					r.record(Violation{Label: "no-panic", Model: m, UFTable: uft, Kind: "panic", Detail: x.msg})
+				}
 				res = PathResult{Outcome: "panic", Msg: x.msg, Steps: r.steps}
 			default:
-				panic(x)
+				res = PathResult{Outcome: "engine-bug", Msg: fmt.Sprint(x), Steps: r.steps}
 			}
 		}
 		if r.incomplete != "" && res.Outcome == "ok" {
@@ -319,10 +656,46 @@ func (r *run) execute(fn *ssa.Function) (res PathResult) {
 	return PathResult{Outcome: "ok", Steps: r.steps}
 }
 
-func (r *run) model2() map[string]uint64 {
+func (r *run) model2() (map[string]uint64, []UFEntry) {
+	if r.eng.Concrete != nil {
+		return r.eng.Concrete.Model, nil
+	}
 	res, err := r.sol.Check()
 	if err != nil || res != solver.Sat {
-		return map[string]uint64{}
+		return map[string]uint64{}, nil
 	}
-	return r.model()
+	return r.model(), r.ufTable()
+}
+
+// witness records the first model reaching label.
+func (r *run) witness(label string) {
+	r.reached = append(r.reached, label)
+	if r.eng.Concrete != nil {
+		return
+	}
+	r.eng.mu.Lock()
+	_, seen := r.eng.Witnesses[label]
+	if !seen {
+		r.eng.Witnesses[label] = &Witness{Label: label} // reserve
+	}
+	r.eng.mu.Unlock()
+	if seen {
+		return
+	}
+	m, uft := r.model2()
+	w := &Witness{Label: label, Model: m, UFTable: uft, Reached: append([]string{}, r.reached...), Observe: map[string]uint64{}, Choices: r.choices()}
+	if len(r.observed) > 0 {
+		ts := make([]*term.Term, len(r.observed))
+		for i, o := range r.observed {
+			ts[i] = o.t
+		}
+		if vs, err := r.sol.Eval(ts); err == nil {
+			for i, o := range r.observed {
+				w.Observe[o.name] = vs[i]
+			}
+		}
+	}
+	r.eng.mu.Lock()
+	r.eng.Witnesses[label] = w
+	r.eng.mu.Unlock()
 }
